@@ -195,6 +195,14 @@ func (r Ref) CommonName() string {
 		if r.Digest != "" {
 			cn = cn + "@" + r.Digest
 		}
+	case "ocifile":
+		cn = fmt.Sprintf("ocifile://%s", r.Path)
+		if r.Tag != "" {
+			cn = cn + ":" + r.Tag
+		}
+		if r.Digest != "" {
+			cn = cn + "@" + r.Digest
+		}
 	}
 	return cn
 }
